@@ -422,7 +422,14 @@ def aggregate(prop, plans, results, report, known):
                 plan, stats = minimise(plan, v)
             except Exception as error:  # minimisation is best effort
                 stats = {"minimised": False, "error": repr(error)}
-        path = common.write_replay(prop, plan, v, {"minimisation": stats})
+        extra = {"minimisation": stats}
+        if n < 4:
+            # the replay must reproduce exactly: record the event digest of the (minimised) plan
+            ok, rerun = reproduces(plan, v)
+            extra["reproduced_in_fresh_child"] = bool(ok)
+            if rerun is not None:
+                extra["digest"] = rerun["digest"]
+        path = common.write_replay(prop, plan, v, extra)
         report.violation(path)
         agg["violating"].append({"signature": v["signature"], "oracle": v["oracle"], "replay": path})
     return agg
@@ -490,7 +497,9 @@ def run_replay(prop, path, report):
         report.harness("replay run failed")
         return report.exit_code()
     if ok:
-        print(f"replay reproduces: {body['signature']} (digest {result['digest']})")
+        same = "" if not body.get("digest") else (", identical event digest" if body["digest"] == result["digest"]
+                                                  else f", event digest differs from the recorded {body['digest']}")
+        print(f"replay reproduces: {body['signature']} (digest {result['digest']}{same})")
         report.violation(path)
     else:
         print(f"replay does not reproduce {body['signature']!r}; violations now: "
